@@ -46,18 +46,24 @@ def cost(tier, seed, info):
         lin = b['len'] / max(a['len'], 1)
         out['summary']['work'][f] = {'w256': a['work'], 'w1024': b['work'], 'ratio': round(ratio, 2), 'len_ratio': round(lin, 2),
                                     'copy': b['copy'], 'limb': b['limb'], 'result': b['result']}
-        if b['work'] > 3000 and ratio > 1.6 * lin + 0.5:
+        lratio = b['lines'] / max(a['lines'], 1)
+        if b['lines'] > 3000 and lratio > 1.6 * lin + 0.5:
+            # executed lines of the library itself grow faster than the input: deterministic, needs no clock
+            out['failures'].append(Failure({'family': f, 'n': 1024, 'n0': 256, 'mode': 'lines'}, 'superlinear-work',
+                                           'family %s: the library executes %d lines on %d octets and %d lines on %d octets (x%.1f work for x%.1f input)' % (
+                                               f, a['lines'], a['len'], b['lines'], b['len'], lratio, lin)))
+        elif b['work'] > 3000 and ratio > 1.6 * lin + 0.5:
             suspects.append((f, 'work units grow x%.1f for x%.1f input (lines %d, limb %d, copied %d)' % (ratio, lin, b['lines'], b['limb'], b['copy'])))
         if b['result'].startswith('esc'):
             out['failures'].append(Failure({'family': f, 'n': 1024, 'mode': 'work'}, 'escape', 'family %s: %s' % (f, b['result'])))
     # (2) CPU time: modest sizes in the quick tier, large in the thorough tier / for suspects
     sizes = (1 << 10, 1 << 12, 1 << 14, 1 << 16, 1 << 18) if tier == 'quick' else (1 << 12, 1 << 14, 1 << 16, 1 << 18, 1 << 20)
-    def timed(f, szs, reps=3):
+    def timed(f, szs, reps=3, mode='time'):
         """ascending sizes; stops as soon as one run needs more than 3 s of CPU (a super-linear family shows long
         before the large sizes; a linear one reaches them cheaply)"""
         res = []
         for n in szs:
-            r = _run('cost_probe.py', [f, n, 'time', reps if n < (1 << 16) else (2 if n < (1 << 18) else 1)], timeout=1800)
+            r = _run('cost_probe.py', [f, n, mode, reps if n < (1 << 16) else (2 if n < (1 << 18) else 1)], timeout=1800)
             out['evaluations'] += 1
             if 'error' in r:
                 return None, r['error']
@@ -71,7 +77,10 @@ def cost(tier, seed, info):
             if t1 > 0.25 and t0 > 0 and t1 / max(t0, 1e-4) > 2.3 * growth:
                 return 'family %s: CPU %.3fs at %d octets, %.3fs at %d octets (x%.1f time for x%.1f input)' % (f, t0, l0, t1, l1, t1 / max(t0, 1e-4), growth), {'family': f, 'n': n1, 'n0': n0}
         return None, None
+    by_lines = {x.index.get('family') for x in out['failures'] if isinstance(x.index, dict) and x.index.get('mode') == 'lines'}
     for f in fams:
+        if f in by_lines:
+            continue          # already shown super-linear by counting executed lines: no need to time it
         res, err = timed(f, sizes)
         if res is None:
             out['failures'].append(Failure({'family': f, 'mode': 'time'}, 'probe-crash', 'cost probe crashed on %s: %s' % (f, err))); continue
@@ -84,9 +93,10 @@ def cost(tier, seed, info):
             txt2, pr2 = (None, None) if res2 is None else judge_times(f, res2)
             ctl = None
             if txt2:
-                # control: a family that is linear by construction (plain literals), same two sizes, measured now; a
-                # loaded machine (cache / memory pressure) inflates the large runs of every family alike
-                resc, _ = timed('plain-literals', (pr['n0'], pr['n']), reps=4)
+                # control: the harness's own reference decoder (independent of the library, linear by construction) on
+                # plain literals of the same two sizes, measured now; a loaded machine (cache / memory pressure)
+                # inflates the large runs of every Python workload alike
+                resc, _ = timed('plain-literals', (pr['n0'], pr['n']), reps=4, mode='time-ref')
                 if resc and len(resc) == 2 and len(res2) == 2 and resc[0][2] > 0 and res2[0][2] > 0:
                     ctl = (resc[1][2] / resc[0][2]) / max(resc[1][1] / max(resc[0][1], 1), 1e-9)      # time growth / length growth
                     mine = (res2[1][2] / res2[0][2]) / max(res2[1][1] / max(res2[0][1], 1), 1e-9)
@@ -100,7 +110,7 @@ def cost(tier, seed, info):
     for f, why in suspects:
         if f in flagged:
             continue
-        res, err = timed(f, (1 << 15, 1 << 17, 1 << 19), reps=1)
+        res, err = timed(f, (1 << 11, 1 << 13, 1 << 15, 1 << 17, 1 << 19), reps=1)
         txt, pr = (None, None) if res is None else judge_times(f, res)
         if txt:
             out['failures'].append(Failure(dict(pr, mode='time'), 'superlinear-time', txt + ' — ' + why))
@@ -115,6 +125,16 @@ def cost_replay(p):
     if p.get('mode') == 'work':
         r = _run('cost_probe.py', [f, p.get('n', 1024), 'work'])
         return ('family %s: %s' % (f, r)) if r.get('result', '').startswith('esc') or 'error' in r else None
+    if p.get('mode') == 'lines':
+        a = _run('cost_probe.py', [f, p.get('n0', 256), 'work'])
+        b = _run('cost_probe.py', [f, p.get('n', 1024), 'work'])
+        if 'error' in a or 'error' in b:
+            return 'probe crashed: %s %s' % (a, b)
+        lin = b['len'] / max(a['len'], 1)
+        lratio = b['lines'] / max(a['lines'], 1)
+        if b['lines'] > 3000 and lratio > 1.6 * lin + 0.5:
+            return 'family %s: %d lines on %d octets, %d lines on %d octets' % (f, a['lines'], a['len'], b['lines'], b['len'])
+        return None
     a = _run('cost_probe.py', [f, p.get('n0', p['n'] // 4), 'time', 2], timeout=1800)
     b = _run('cost_probe.py', [f, p['n'], 'time', 2], timeout=1800)
     if 'error' in a or 'error' in b:
